@@ -75,6 +75,9 @@ type Unit struct {
 	// runtime's own generator only (plain types) into its own Go package whose NAME differs from the last element
 	// of its import path (go_package = ".../dep/v2;deppb"), the way versioned API packages are laid out.
 	Dep *descriptorpb.FileDescriptorProto
+	// DepSamePackage puts Dep into the SAME Go package (and directory) as the unit's own file, and has the fast-marshal
+	// code of both files compiled together - the usual layout of a Go package made from several .proto files
+	DepSamePackage bool
 }
 
 // FileB builds a file.
